@@ -115,6 +115,9 @@ func hmac512(key []byte, parts ...[]byte) []byte {
 	return m.Sum(nil)
 }
 
+// HMAC512 is HMAC-SHA512 over the concatenation of parts.
+func HMAC512(key []byte, parts ...[]byte) []byte { return hmac512(key, parts...) }
+
 // Master: I = HMAC-SHA512("Bitcoin seed", seed); key IL, chain code IR.
 // Invalid when IL = 0 or IL >= n.
 func Master(seed []byte) (*Key, error) {
@@ -180,6 +183,36 @@ func (k *Key) Child(i uint32) (*Key, error) {
 		c.Pub = p
 	}
 	return c, nil
+}
+
+// ChildScalars is CKDpriv without the point multiplication for the child's public
+// key: it returns IL, ser256(child key) and the child chain code. It exists so
+// that a caller can SCAN many child indexes of one private parent (one
+// HMAC-SHA512 and one modular addition per index) to find children with special
+// byte patterns; the nodes found are then derived again with Child. ok is false
+// for the BIP32 "invalid child" cases.
+func (k *Key) ChildScalars(i uint32) (il, key, chain []byte, ok bool) {
+	if k.Priv == nil {
+		return nil, nil, nil, false
+	}
+	var idx [4]byte
+	binary.BigEndian.PutUint32(idx[:], i)
+	var I []byte
+	if i >= Hardened {
+		I = hmac512(k.Chain, []byte{0}, k.PrivBytes(), idx[:])
+	} else {
+		I = hmac512(k.Chain, k.PubBytes(), idx[:])
+	}
+	x := new(big.Int).SetBytes(I[:32])
+	if x.Cmp(refsecp.N) >= 0 {
+		return nil, nil, nil, false
+	}
+	x.Add(x, k.Priv)
+	x.Mod(x, refsecp.N)
+	if x.Sign() == 0 {
+		return nil, nil, nil, false
+	}
+	return I[:32], refsecp.B32(x), I[32:], true
 }
 
 // Neuter returns the public extended key.
